@@ -49,7 +49,7 @@ impl<T: RealNumber> Matrix<T> for DenseMatrix<T> {
 //@enter
         proof { lemma_idx(row as int, col as int, self.nrows as int, self.ncols as int); }
         let ghost pre = *self;
-//@after self.values[col * self.nrows + row] = x;
+//@exit
         proof {
             assert forall|r: int, c: int| 0 <= r < pre.nrows && 0 <= c < pre.ncols && !(r == row && c == col)
                 implies #[trigger] DenseMatrix::<T>::at(self, r, c) == DenseMatrix::<T>::at(&pre, r, c) by {
@@ -68,7 +68,7 @@ impl<T: RealNumber> Matrix<T> for DenseMatrix<T> {
 //@loop 2
                 invariant self.wf(), self.nrows == 1, v.len() == self.ncols, r == 0,
                     forall|c2: int| 0 <= c2 < c ==> v[c2] == self.values[c2 * self.nrows + 0],
-//@before v[r * self.ncols + c] = self.get(r, c);
+//@loopbody 2
                 proof { assert(r * self.ncols + c == c) by(nonlinear_arith) requires r == 0; }
 //@end
 
